@@ -469,10 +469,10 @@ impl ABuilder {
                 block_on(root.create_dir_all()).expect("HARNESS: create altroot directory");
                 // the same sentinels as the sync builder
                 let sb = ABlock(s.clone());
-                let sdir = sb.join("S").unwrap();
-                let _ = sdir.create_dir();
-                let _ = sdir.join("f").unwrap().write_file(b"sentinel");
                 if !p.is_empty() {
+                    let sdir = sb.join("S").unwrap();
+                    let _ = sdir.create_dir();
+                    let _ = sdir.join("f").unwrap().write_file(b"sentinel");
                     let _ = sb.join(&format!("{}x", &p[1..])).unwrap().write_file(b"sibling");
                     let mut anc = crate::ops::parent_of(p);
                     while !anc.is_empty() {
